@@ -396,6 +396,7 @@ pub fn run(ctx: &RunCtx) -> i32 {
         exhaustive: true,
     };
     let (pl, sl) = match ctx.tier {
+        _ if scale_div() > 1 => (3usize, 4usize), // sanitizer legs
         Tier::Quick => (6usize, 7usize),
         Tier::Thorough => (8, 9),
     };
